@@ -202,11 +202,24 @@ func (m *linMaker) of(t *Term) linForm {
 		return m.of(t.Args[0]).scale(-1)
 	case t.Op == "bin" && len(t.Args) == 2:
 		a, b := m.of(t.Args[0]), m.of(t.Args[1])
+		// arithmetic in a type narrower than 64 bits wraps at that type's modulus, not at 2^64 (n - skew in uint on a
+		// 32-bit target): looked through only while the exact value stays in the type's range
+		narrow := func(r linForm) linForm {
+			if !m.modular || t.Typ == nil {
+				return r
+			}
+			if bt, ok := t.Typ.Underlying().(*types.Basic); ok {
+				if lo, hi, bits, okR := intRangeOfName(bt.Name(), m.w); okR && bits < 64 {
+					m.checks = append(m.checks, convRange{r, lo, hi, bt.Name() + " arithmetic"})
+				}
+			}
+			return r
+		}
 		switch t.Sym {
 		case "+":
-			return a.add(b, 1)
+			return narrow(a.add(b, 1))
 		case "-":
-			return a.add(b, -1)
+			return narrow(a.add(b, -1))
 		case "*":
 			if len(a.coef) == 0 {
 				return b.scale(a.k)
@@ -770,7 +783,9 @@ func analyseWindow(c *Check, w *World, tb *TB, iv *IV, pfx string, entry *ssa.Fu
 			if dead {
 				continue
 			}
-			part := &winPart{argL: (&linMaker{w: w, modular: true}).of(wy.argT)}
+			am := &linMaker{w: w, modular: true}
+			part := &winPart{argL: am.of(wy.argT)}
+			part.checks = append(part.checks, am.checks...)
 			// every way must be centre ± i like the joined argument
 			if part.argL.coef[cAtom] != 1 || (part.argL.coef[s.iAtom] != 1 && part.argL.coef[s.iAtom] != -1) {
 				part.extra = append(part.extra, "on one branch the counter argument is "+clip(normT(wy.argT), 140)+", not centre ± i")
@@ -801,7 +816,7 @@ func analyseWindow(c *Check, w *World, tb *TB, iv *IV, pfx string, entry *ssa.Fu
 					part.extra = append(part.extra, clip(normT(cd.t), 160))
 				}
 			}
-			part.checks = ex.checks
+			part.checks = append(part.checks, ex.checks...)
 			s.parts = append(s.parts, part)
 		}
 	}
